@@ -222,19 +222,7 @@ def inv3(rep, mod, table):
               construct='order', node=f)
     # the property setter resolves to _setBases
     cls = find_def(mod, 'BaseAdapterRegistry')
-    from ..pyfront import class_attr_assign
-    prop = class_attr_assign(cls, '__bases__')
-    okp = False
-    if prop is not None:
-        env = match('property($g, $s)', prop)
-        if env is not None and isinstance(env['s'], ast.Lambda):
-            lam = env['s']
-            a = [x.arg for x in lam.args.args]
-            okp = len(a) == 2 and match('%s._setBases(%s)' % (a[0], a[1]),
-                                        lam.body) is not None
-    rep.check('INV-3', 'BaseAdapterRegistry.__bases__', okp,
-              'assignment to __bases__ goes through self._setBases(bases): %s'
-              % norm_src(prop), construct='setter', node=cls)
+    shared.setter_routes(rep, 'INV-3', cls, '__bases__', 'BaseAdapterRegistry.__bases__')
     f = find_def(mod, 'AdapterRegistry._setBases')
     all_paths_call(rep, 'INV-3', f, 'AdapterRegistry._setBases',
                    'super()._setBases(bases)', 'super()._setBases(bases)')
